@@ -7,6 +7,7 @@ import Torf.Lemmas.CodecLookup
 import Torf.Lemmas.Span
 import Torf.Lemmas.Magnet
 import Torf.Lemmas.Base32
+import Torf.Lemmas.Dump
 import Torf.Model.ReadStream
 namespace Torf.C06
 open Torf Torf.Bencode Torf.Codec Torf.ReadStream
@@ -86,27 +87,6 @@ theorem C06_infohash_def (env : Env) (H : Bytes → Bytes) (md : List (PyVal × 
     exact ⟨ib, hib, hh.symm⟩
   · exact absurd hh (by simp)
 
-/-- what `dump` returns: the serialisation of the converted metainfo -/
-theorem dump_ok {env : Env} {md : List (PyVal × PyVal)} {validate : Bool} {bs : Bytes}
-    (h : dump env md validate = .ok bs) :
-    ∃ u, encodeDict (ensureInfo md) = .ok u ∧ small env.lim u = true ∧ bs = ser u := by
-  unfold dump at h
-  split at h
-  · exact absurd h (by simp)
-  · split at h
-    · exact absurd h (by simp)
-    · rename_i u hu
-      split at h
-      · rename_i hs
-        simp only [Except.ok.injEq] at h
-        unfold convert at hu
-        split at hu
-        · rename_i u' hu'
-          simp only [Except.ok.injEq] at hu; subst hu
-          exact ⟨u', hu', hs, h.symm⟩
-        · exact absurd hu (by simp)
-      · exact absurd h (by simp)
-
 /-- **The hashed bytes are a slice of the written file, at the place where a conforming parser
     finds the value of the top-level key `info`.**  For every metainfo that is a Python dict
     (`wf`), whenever `dump()` returns `bs` and `infohash` returns `h`: `bs` splits as
@@ -149,18 +129,6 @@ theorem C06_magnet (env : Env) (H : Bytes → Bytes) (md : List (PyVal × PyVal)
   · exact (Except.ok.inj hg).symm
   · exact absurd hg (by simp)
 
-/-- a 20-byte digest in lower-case hex is accepted by `_INFOHASH_REGEX` -/
-theorem matchesInfohash_hexLower (d : Bytes) (hd : d.length = 20) :
-    matchesInfohash (Base32.hexLower d) = true := by
-  have hl := Base32.hexLower_length d
-  have ha : (Base32.hexLower d).all isHexDigitCI = true := by
-    rw [List.all_eq_true]
-    intro c hc
-    have := Base32.hexLower_all_hex d c hc
-    simp only [isHexDigitCI, Bool.or_eq_true, Bool.and_eq_true, decide_eq_true_eq]
-    omega
-  simp [matchesInfohash, hl, hd, ha]
-
 /-- **No `MagnetError`:** for a 20-byte digest function `magnet().xt` exists (and by `C06_magnet`
     is `'urn:btih:' + infohash`). -/
 theorem C06_magnet_ok (env : Env) (H : Bytes → Bytes) (md : List (PyVal × PyVal)) (h : Bytes)
@@ -200,27 +168,6 @@ theorem C06_base32_shape (env : Env) (H : Bytes → Bytes) (md : List (PyVal × 
   · exact absurd he (by simp)
 
 /-! ### non-vacuity -/
-
-theorem ok_of_toOption {ε α : Type} {x : Except ε α} {a : α} (h : x.toOption = some a) :
-    x = .ok a := by
-  cases x with
-  | ok b => simp only [Except.toOption, Option.some.injEq] at h; rw [h]
-  | error e => simp [Except.toOption] at h
-
-/-- a validating environment, a 20-byte "digest" and a metainfo with a non-ASCII top-level key
-    sorting after `info`, a key sorting before it, a bool, a float and a tuple -/
-def exEnv : Env := { fromTs := fun _ => none, validate := fun _ => true }
-def exH : Bytes → Bytes := fun x => List.replicate 20 (UInt8.ofNat x.length)
-def exMd : List (PyVal × PyVal) :=
-  [(.str "é", .tuple [.bool true, .float (.fin 1 false false)]),
-   (.str "info", .dict [(.str "name", .str "a"), (.str "piece length", .int 16384)]),
-   (.str "a", .datetime (some 5))]
-
-def exDump : Bytes :=
-  [100, 49, 58, 97, 105, 53, 101, 52, 58, 105, 110, 102, 111, 100, 52, 58, 110, 97, 109, 101, 49,
-   58, 97, 49, 50, 58, 112, 105, 101, 99, 101, 32, 108, 101, 110, 103, 116, 104, 105, 49, 54, 51,
-   56, 52, 101, 101, 50, 58, 195, 169, 108, 105, 49, 101, 105, 49, 101, 101, 101]
-   -- d1:ai5e4:infod4:name1:a12:piece lengthi16384ee2:él i1e i1e ee
 
 /-- non-vacuity of `C06_span`, `C06_magnet`, `C06_magnet_ok`, `C06_base32`, `C06_base32_shape`:
     their hypotheses hold together on `exMd` — `dump`, `infohash`, `infohash_base32` succeed, the
